@@ -6,6 +6,7 @@ import AffVerif.Judge.C17
 import AffVerif.Judge.Hist
 import AffVerif.Judge.C10
 import AffVerif.Judge.C15
+import AffVerif.Judge.C14
 /-! The judge: reads one case per line on stdin, prints one verdict per line. -/
 open AV AV.Judge
 
@@ -18,6 +19,7 @@ def judgeLine (line : String) : String :=
     | "C16" => judgeC16
     | "C12" => judgeC12
     | "C10" => judgeC10
+    | "C14" => judgeC14
     | "C15" => judgeC15
     | "HIST" => judgeHist
     | "C17" => judgeC17
